@@ -3,4 +3,4 @@ import Driver.Fam.Index
 open Driver
 /-- families of area "index" -/
 def main (args : List String) : IO UInt32 :=
-  run [Fam.Idx.idxfile, Fam.Idx.idxflags, Fam.Idx.idxcycle, Fam.Idx.idxmeta, Fam.Idx.idxmut, Fam.Idx.idxmal] args
+  run [Fam.Idx.idxfile, Fam.Idx.idxflags, Fam.Idx.idxflagorder, Fam.Idx.idxcycle, Fam.Idx.idxmeta, Fam.Idx.idxmut, Fam.Idx.idxmal] args
